@@ -133,13 +133,13 @@ claim(
 claim(
     "C19",
     "E2: exhaustive enumeration of EVERY answer sequence of the random module for each setting of a generator-parameter grid (every instance the generator can emit), shape predicates per outcome + coverage of all machines over the outcome set; seed/iteration clauses over a finite seed list",
-    "All outcomes of GeneralInstanceGenerator.generate() for 400+ parameter settings with small ranges; same-seed equality, unique names and iteration_limit on a seed x setting grid.",
+    "All outcomes of GeneralInstanceGenerator.generate() for 400+ parameter settings with small ranges; same-seed equality, unique names and iteration_limit on a seed x setting grid; generate() with both, one or none of the sizes given explicitly.",
     "Small ranges (<= 3 jobs x 3 machines); seed clause uses the real RNG on a finite list.",
 )
 claim(
     "C20",
     "exhaustive small-scope enumeration of schedules through the real plot_gantt_chart (artist inspection); all histories through the real frame-replay loop and GanttChartCreator; EVERY n in 1..N through the real file-naming / directory-listing / sorted-loading pipeline with stub figure and recording codec; real GIF encode/decode for small n",
-    "Bars/legend/axis vs schedule for every distinct schedule of the family; k-th frame == first k dispatches for every history; frame order for every history length up to N (130 quick, 1100 thorough), crossing 100 and 1000.",
+    "Bars/legend/axis vs schedule for every distinct schedule of the family; k-th frame == first k dispatches for every history; frame order for every history length up to N (130 quick, 1100 thorough) plus 998..1002 (quick) / 9999..10001 (thorough), crossing 100, 1000 and 10000; charts also through one re-used partial plotter and GanttChartCreator.plot_gantt_chart.",
     "Frame order decided for n <= N only; pixels not compared except the gray level encoding the frame id.",
 )
 
